@@ -921,6 +921,21 @@ def emit_fn(d, unit, report, canaries):
                 raise ExtractError('lost anchor: %s ascribe %s' % (fname, var))
             counts['R12'] = counts.get('R12', 0) + 1
     for name, argstr, text in d.sections:
+        if name == 'replace':
+            # R19: a listed expression-level replacement `//@replace ~|regex| => text` (call of an assumed helper for an
+            # iterator-adapter / slice API Verus cannot ingest); every application is reported with its text
+            rx_part, new_txt = argstr.split('=>', 1)
+            rx_part = rx_part.strip()
+            if rx_part.startswith('~|') and rx_part.endswith('|'):
+                rx = rx_part[2:-1]
+            else:
+                rx = rx_part.lstrip('~')
+            body, n = re.subn(rx, new_txt.strip(), body)
+            if n == 0:
+                raise ExtractError('lost anchor: %s replace ~%s' % (fname, rx))
+            counts['R19'] = counts.get('R19', 0) + n
+            info.setdefault('replacements', []).append('%s => %s (x%d)' % (rx, new_txt.strip(), n))
+    for name, argstr, text in d.sections:
         if name == 'iterize':
             # R14b: `for X in NAME {` with NAME a reference to a HashSet/HashMap -> `for X in NAME.iter() {`
             for nm in argstr.split(','):
